@@ -45,6 +45,47 @@ def norm_wire(w):
     return re.sub(r',g(\d+)', lambda m: (',g' if K.TABLE.get(int(m.group(1)), (0, 0, 0))[2] else ',t') + m.group(1), w)
 
 
+_REF = re.compile(r'r([comnwxl])([^.]*)\.')
+
+
+def loaded_wire(w):
+    """pickled-state wire -> the wire of what `state()` hands to the resolver: every reference
+    becomes a PersistentReference (data with BadClass slots rewritten to (module, name) tuples,
+    plus oid / database_name / weak)"""
+    def one(m):
+        fmt, f = m.group(1), m.group(2).split(',')
+
+        def k(x):
+            if x[0] == 'g':
+                return ('c' if K.TABLE.get(int(x[1:]), (0, 0, 0))[2] else 't') + x[1:]
+            return x
+        oid, db, weak = f[0], '-', 0
+        if fmt == 'c':
+            f = [f[0], k(f[1])]
+        elif fmt == 'm':
+            oid, db, f = f[1], f[0], [f[0], f[1], k(f[2])]
+        elif fmt == 'n':
+            oid, db = f[1], f[0]
+        elif fmt == 'w':
+            weak = 1
+        elif fmt == 'x':
+            db, weak = f[1], 1
+        elif fmt == 'l':
+            weak = 1
+        return 'R%s%s;%s;%s;%d.' % (fmt, ','.join(f), oid, db, weak)
+    return _REF.sub(one, w)
+
+
+def expected_call(rec_new, rec_old, rec_committed):
+    return 'call=%s|%s|%s|%s' % (rec_new.split('/')[0], loaded_wire(rec_old.split('/')[2]),
+                                 loaded_wire(rec_committed.split('/')[2]), loaded_wire(rec_new.split('/')[2]))
+
+
+def resolvable_class(rec):
+    info = K.TABLE.get(int(rec.split('/')[0]))
+    return bool(info and info[2] and info[3])
+
+
 def expected_merge(rec_new, rec_old, rec_committed):
     """the class's three-way merge on wires; None when the class cannot resolve"""
     cid, args, new = rec_new.split('/')
@@ -67,9 +108,10 @@ def expected_merge(rec_new, rec_old, rec_committed):
     return None
 
 
-def oracle_trace(ops, obs, pid='C03'):
+def oracle_trace(ops, obs, pid='C03', kind=None):
     """returns (problems [(signature, what)], nontrivial flag, histogram dict).  Uses the REAL
-    observations `obs` only."""
+    observations `obs` only.  With `kind` given (C10) the resolver invocations logged by the
+    instrumented classes are checked as well; non-trivial then = the resolver was invoked."""
     P = []
     hist = {}            # oid -> [(tid, wire)] oldest first
     holder = None
@@ -111,6 +153,29 @@ def oracle_trace(ops, obs, pid='C03'):
         elif o == 'store':
             t, oid, serial, rec = int(tk[1]), int(tk[2]), int(tk[3]), tk[4]
             bump('store:' + first)
+            if kind is not None and holder == t:
+                calls = [x for x in parts if x.startswith('call=')]
+                pred = last(oid)
+                conflict = pred is not None and serial != pred[0]
+                olds = [w for (tid, w) in hist.get(oid, []) if tid == serial]
+                if first.startswith('err:Other'):
+                    P.append((pid + ':wrong-exception', 'op %d %r raised %s instead of a conflict error' % (i, op, first)))
+                if calls:
+                    nontrivial = True
+                    bump('resolver-invoked:' + K.TABLE.get(int(rec.split('/')[0]), ('', '?'))[1])
+                    if not conflict or not olds:
+                        P.append((pid + ':resolver-arguments', 'op %d %r: resolver invoked without a conflict: %s' % (i, op, calls)))
+                    else:
+                        exp = expected_call(rec, olds[-1], pred[1])
+                        if calls != [exp]:
+                            P.append((pid + ':resolver-arguments',
+                                      'op %d %r: _p_resolveConflict was called with %s, expected exactly one call with '
+                                      '(state at the writer\'s serial %d, state committed at %d, state the writer wants) = %s'
+                                      % (i, op, calls, serial, pred[0], exp)))
+                elif conflict and olds and kind != 'mapping' and resolvable_class(rec) and first == 'err:Conflict':
+                    P.append((pid + ':resolver-not-invoked',
+                              'op %d %r: ConflictError although the class offers _p_resolveConflict and both revisions '
+                              'exist; the resolver was never called' % (i, op)))
             if first in ('ok', 'resolved'):
                 if holder != t or t not in cur:
                     P.append((pid + ':store-outside-transaction', 'op %d %r accepted for a non-holder' % (i, op)))
@@ -197,6 +262,30 @@ def oracle_trace(ops, obs, pid='C03'):
             cur.pop(t, None)
             if holder == t:
                 holder = None
+        elif o == 'undo':
+            tid, oid, ctid, undone, pre, curw = int(tk[1]), int(tk[2]), int(tk[3]), int(tk[4]), tk[5], tk[6]
+            calls = [x for x in parts if x.startswith('call=')]
+            olds = [w for (t2, w) in hist.get(oid, []) if t2 == undone]
+            bump('undo:' + first)
+            if calls:
+                nontrivial = True
+                bump('resolver-invoked:' + K.TABLE.get(int(pre.split('/')[0]), ('', '?'))[1])
+            exp_calls = [expected_call(pre, olds[-1], curw)] if olds and resolvable_class(pre) else []
+            if calls != exp_calls:
+                P.append((pid + ':undo-resolver-arguments',
+                          'op %d %r: undo called the resolver with %s, expected (state written by the undone '
+                          'transaction, current state, state before the undone transaction) = %s' % (i, op, calls, exp_calls)))
+            merged = expected_merge(pre, olds[-1], curw) if olds else None
+            if first == 'ok':
+                got = parts[1] if len(parts) > 1 else ''
+                if merged is None or got != merged:
+                    P.append((pid + ':undo-stored-differs',
+                              'op %d %r: undo stored %s, the class\'s merge is %s' % (i, op, got, merged)))
+                hist.setdefault(oid, []).append((tid, got))
+            elif first != 'err:Undo':
+                P.append((pid + ':wrong-exception', 'op %d %r: undo raised %s' % (i, op, ob)))
+            elif merged is not None:
+                P.append((pid + ':resolver-not-invoked', 'op %d %r: UndoError although the merge %s exists' % (i, op, merged)))
         elif o == 'cur':
             p = last(int(tk[1]))
             exp = str(p[0]) if p else 'none'
@@ -494,6 +583,37 @@ def commit_outcome(tm):
         return 'Other(%s)' % type(e).__name__
 
 
+class Probe:
+    """a second, trivial data manager joined to the transaction: the transaction package calls its
+    `tpc_abort` after a failed commit and BEFORE the synchronizers start the next transaction, which is
+    the only moment at which "the conflicting connection invalidated its stale copy" is observable"""
+
+    def __init__(self, watch, out):
+        self.watch, self.out = watch, out
+
+    def sortKey(self):
+        return '~~probe'
+
+    def abort(self, txn):
+        pass
+
+    def tpc_begin(self, txn):
+        pass
+
+    def commit(self, txn):
+        pass
+
+    def tpc_vote(self, txn):
+        pass
+
+    def tpc_finish(self, txn):
+        pass
+
+    def tpc_abort(self, txn):
+        for o, ob in self.watch.items():
+            self.out[o] = ob._p_changed is None
+
+
 class ConnActor:
     """one connection with its own transaction manager; keeps the bookkeeping the value-level oracle
     needs: for every write the value the connection saw before it"""
@@ -538,13 +658,16 @@ class ConnActor:
         elif kind == 'commit':
             import threading
             w.rec.last_finish.pop(threading.get_ident(), None)
+            ghost = {}
+            if self.pending and self.readcur:
+                self.tm.get().join(Probe({o: root[o] for o in self.readcur}, ghost))
             out = commit_outcome(self.tm)
             tid = w.rec.last_finish.get(threading.get_ident()) if out == 'ok' and self.pending else None
             after = {}
             if out == 'ok':
                 for o in self.pending:
                     after[o] = _get(root[o])       # what the writer's own connection reads now
-            self.log.append(('commit', self.name, out, tid, dict(self.pending), dict(self.readcur), after))
+            self.log.append(('commit', self.name, out, tid, dict(self.pending), dict(self.readcur), after, ghost))
             self.pending, self.readcur = {}, {}
         elif kind == 'abort':
             self.tm.abort()
@@ -644,6 +767,17 @@ def oracle_db(res):
                 P.append(('C03:readcurrent-stale-commit',
                           'commit %d of %s declared %s current at value %r, but the latest revision before the '
                           'commit holds %r' % (e[3], e[1], o, seen, before[-1])))
+    # 2b. after a ReadConflictError the connection must have dropped (ghostified) a stale copy, so
+    #     that a retry reads the new state
+    if res.get('section') == 'db':
+        for e in commits:
+            if e[2] == 'ReadConflict' and e[7]:
+                # the values the connection had declared current vs. the real latest values
+                stale = [o for o, seen in e[5].items() if chains[o] and chains[o][-1][1] != seen]
+                if stale and not any(e[7].get(o) for o in stale):
+                    P.append(('C03:stale-copy-kept-after-readconflict',
+                              'commit of %s failed with ReadConflictError but the connection kept its stale '
+                              'copy of %s (not invalidated)' % (e[1], ','.join(stale))))
     # 3. serial replay in tid order
     final = dict(res['initial'])
     for e in ok:
@@ -718,7 +852,7 @@ def run_sched_real(case, tmp, tag='t'):
                 raise Stuck('committer threads deadlocked under schedule %r (errors %r)' % (
                     r['decisions'][:60], {k: repr(v)[:80] for k, v in r['errors'].items()}))
             for name, e in r['errors'].items():
-                log.append(('commit', name, 'Other(%s)' % type(e).__name__, None, {}, {}, {}))
+                log.append(('commit', name, 'Other(%s)' % type(e).__name__, None, {}, {}, {}, {}))
             res = finish_db(w, log)
             res['decisions'] = r['decisions']
             return res
@@ -888,7 +1022,7 @@ def main(argv=None):
     for idx, (case, res) in enumerate(zip(cases, results)):
         if res is None:
             continue
-        P, nontriv, hc = judge(case, res)
+        P, nontriv, hc = res['judged']
         for k, v in hc.items():
             ck.count(k, v)
         ck.count('section:' + case['section'])
@@ -917,7 +1051,7 @@ def main(argv=None):
                 case['section'], case['kind'], res['ops'][j], res['obs'][j], mo[j]),
                 dict(case=case, ops=res['ops'][:j + 1], real=res['obs'][:j + 1], model=mo[:j + 1]))
     # ---- plain OS threads smoke (no scheduler): real preemption, a few hundred commits
-    if not ck.replay_path:
+    if not ck.replay_path and not ck.violations:
         for kind in KINDS:
             try:
                 probs = run_threads_smoke(kind, ck.tmp, 40 if not ck.thorough else 400)
@@ -945,26 +1079,43 @@ def _work(args):
     import logging
     logging.disable(logging.CRITICAL)
     try:
-        return idx, run_real_safe(case, tmp, 'w%d' % idx), None
+        res = run_real_safe(case, tmp, 'w%d' % idx)
+        res['judged'] = judge(case, res)
+        return idx, res, None
     except InfraError as e:
         return idx, None, 'infra: %s' % e
 
 
+MAX_BAD = 6      # stop executing further cases once this many have violated the property
+
+
 def run_all(ck, cases):
+    """real runs + direct oracle for every case (cases not executed stay None).  Once MAX_BAD cases
+    violated the property the rest is skipped: the verdict is settled, and broken lock semantics make
+    every further case wait for timeouts."""
     results = [None] * len(cases)
+    bad = 0
     if ck.thorough and len(cases) > 200:
         import multiprocessing as mp
         with mp.get_context('fork').Pool(min(16, os.cpu_count() or 4)) as pool:
-            for idx, res, err in pool.imap_unordered(_work, [(i, c, ck.tmp) for i, c in enumerate(cases)], chunksize=8):
+            for idx, res, err in pool.imap_unordered(_work, [(i, c, ck.tmp) for i, c in enumerate(cases)], chunksize=4):
                 if err:
                     raise InfraError('case %d failed to run: %s' % (idx, err))
                 results[idx] = res
+                bad += bool(res['judged'][0])
+                if bad >= MAX_BAD:
+                    pool.terminate()
+                    break
     else:
         for i, c in enumerate(cases):
             idx, res, err = _work((i, c, ck.tmp))
             if err:
                 raise InfraError('case %d (%s) failed to run: %s' % (i, json.dumps(c)[:300], err))
             results[i] = res
+            bad += bool(res['judged'][0])
+            if bad >= MAX_BAD:
+                ck.count('stopped-early-after-violations')
+                break
     return results
 
 
